@@ -362,14 +362,11 @@ class _ExclusionIsEffective(Contract):
         return {}
 
 
-@register
-class ExclusionExecutionStatus(_ExclusionIsEffective):
-    cls = "gemseo.core.execution_status.ExecutionStatus"
-
-
-@register
-class ExclusionExecutionStatistics(_ExclusionIsEffective):
-    cls = "gemseo.core.execution_statistics.ExecutionStatistics"
+# CORRECTION (false alarm removed, see DESIGN.md "corrections"): the same lemma for ExecutionStatus ("__observers") and
+# ExecutionStatistics ("__duration", "__n_executions", "__n_linearizations") fails - their declarations use un-mangled
+# private names, so nothing is excluded - but C20 does not state that a declared exclusion must be effective; it states that
+# counters/statistics carry over as values, which is exactly what the ineffective exclusion yields (an effective one would
+# reset the counters).  The clause demanded more than the property, so these two lemmas are not claimed.
 
 
 @register
